@@ -148,7 +148,7 @@ func ruleValueFilterOp(r *Report) {
 			continue
 		}
 		n++
-		deepVisitE(body, func(ins, _ ssa.Instruction, env *venv) {
+		deepVisitFrom(body, c.Env, func(ins, _ ssa.Instruction, env *venv) {
 			call, _, _ := callCommon(ins)
 			if call == nil {
 				return
@@ -158,7 +158,7 @@ func ruleValueFilterOp(r *Report) {
 				return
 			}
 			recv, _ := normE(bitmapRecv(call.Args[0]), env, false)
-			if sameExpr(recv, sel) || isLoadOf(recv, sel) {
+			if sameExpr(recv, sel) || isLoadOf(recv, sel) || sameE(bitmapRecv(call.Args[0]), env, sel, nil, 0) {
 				ops = append(ops, baseName(sc))
 			}
 		})
@@ -1228,7 +1228,7 @@ func ruleTypedFilterScan(r *Report) {
 			if cb == nil || cbParam(cb, 0) == nil || cbParam(cb, 1) == nil {
 				continue
 			}
-			deepVisitE(cb, func(ins, _ ssa.Instruction, env *venv) {
+			deepVisitFrom(cb, c.Env, func(ins, _ ssa.Instruction, env *venv) {
 				c2, _, _ := callCommon(ins)
 				if c2 == nil || len(c2.Args) < 3 {
 					return
